@@ -292,7 +292,15 @@ def forms(kind, xs, S):
             add("combinations", "list(combinations(%s, %d))" % (S, k), E([list(c) for c in itertools.combinations(xs, k)]))
     add("frequencies", "frequencies(%s)" % S, ("dict", conv(Freq([(k, sum(1 for x in xs if x == k)) for k in uniq(xs)]))))
     add("group_all", "%s group_all id" % S, ("multiset", [conv(Seq(K, g)) for g in [[x for x in xs if x == k] for k in uniq(xs)]]))
-    add("..", "%s .. 1" % S, None)
+    if kind in SAMEKIND:
+        whole = Seq(kind, xs)
+        add("..", "%s .. 1" % S, E([whole, 1]))
+        add("..", "1 .. %s" % S, E([1, whole]))
+        for k in (0, 1, 3):
+            add(".*", "%s .* %d" % (S, k), E([whole] * k))
+            add("*.", "%d *. %s" % (k, S), E([whole] * k))
+    else:
+        add("..", "%s .. 1" % S, None)
     return out
 
 
